@@ -3,7 +3,8 @@
 # vector-clock monitor lib/Race.v in proofs/RaceHBProofs.v; publication protocol, instances
 # models/RaceInst.v; for loom.Queue / WaitClose / Wheel additionally the labelled small-step models
 # models/RaceQueue.v, RaceWaitClose.v, RaceWheel.v: race freedom of every run of the model that C01/C02,
-# C03/C04 and C09 step against the code). Tie to the code: (1) the access table regenerated from /repo's source
+# C03/C04 and C09 step against the code; likewise models/RaceCache.v for the cachex step model CacheSteps.v that
+# C04's call-steps stream steps against the code). Tie to the code: (1) the access table regenerated from /repo's source
 # by harness/cmd/accesses must equal RaceInst.ri_access_table; (2) a -race build of
 # harness/cmd/racestress hammers every shared component in real time on 1..16 Ps: a race
 # report is a failing schedule.
@@ -19,7 +20,12 @@ PROOFS = ["proofs/RaceProofs.v", "proofs/RaceHBProofs.v", "lib/Race.v", "lib/Rac
           "proofs/RaceMonLemmas.v",
           "models/RaceQueue.v", "proofs/RaceQueueProofs.v",
           "models/RaceWaitClose.v", "proofs/RaceWaitCloseProofs.v",
-          "models/RaceWheel.v", "proofs/RaceWheelProofs.v"]
+          "models/RaceWheel.v", "proofs/RaceWheelProofs.v",
+          # the cachex step model (CacheSteps.v, the machine C04's call-steps stream steps against the code) labelled
+          "models/RaceCache.v", "proofs/RaceCacheMon.v", "proofs/RaceCacheStruct.v", "proofs/RaceCacheInv.v",
+          "proofs/RaceCacheGen.v", "proofs/RaceCacheCases.v", "proofs/RaceCacheProofs.v",
+          # ants task / taskx callback task: labelled result-publication protocols (any attempts, late handlers)
+          "models/RaceTasks.v", "proofs/RaceTasksProofs.v"]
 
 
 def coq_table():
@@ -130,10 +136,14 @@ def run(chk):
         "modelled, not verified: Go's synchronisation (sequentially consistent atomics, Mutex, WaitGroup, channels, go statement) is represented by "
         "release/acquire events on sync objects (every acquire synchronizes with all earlier releases on the object) in lib/RaceHB.v; the vector-clock monitor "
         "lib/Race.v is PROVED to decide the relational happens-before race of that representation (c18_monitor_sound / c18_monitor_complete); "
-        "covered by theorems: the publication patterns listed in RaceInst.v (abstract protocol instances) and, for loom.Queue, loom.WaitClose and "
-        "loom.Wheel, every run of the component's small-step model labelled with memory events (models/Race{Queue,WaitClose,Wheel}.v: which event each "
-        "model step emits is a transcription of the source, cross-checked by the access-table rows of queue.go / wait_close.go / wheel.go; the "
-        "step-by-step tie of those models to the code is C01/C02, C03/C04, C09); other fields only by the detector"]
+        "covered by theorems: the publication patterns listed in RaceInst.v (abstract protocol instances) and, for loom.Queue, loom.WaitClose, "
+        "loom.Wheel and the cachex Cache with its Futures, every run of the component's small-step model labelled with memory events "
+        "(models/Race{Queue,WaitClose,Wheel,Cache}.v: which event each "
+        "model step emits is a transcription of the source, cross-checked by the access-table rows of queue.go / wait_close.go / wheel.go / "
+        "cache_impl.go / future.go and, for cachex, by c18_cache_labels_match_sites against the yield sites; the "
+        "step-by-step tie of those models to the code is C01/C02, C03/C04, C09, and the C04 stream call-steps for cachex); "
+        "ants Task and taskx callback task: labelled protocol machines (models/RaceTasks.v: any number of attempts, late handlers, Get2 callers; "
+        "a protocol-level reading of task_callback_ants.go / task_callback.go, not a stepped model) and the detector; other fields only by the detector"]
     chk.assumptions = ["atomic operations, mutexes, WaitGroups and channels synchronise as the Go memory model says",
                        "the components are used through their public API as the stress clients do"]
     chk.cov["rule"] = ("(1) one case per function row of the access table (synchronisation fingerprint regenerated from the source vs the row stored in RaceInst.v); "
